@@ -1011,6 +1011,8 @@ impl TypeSpace {
                 // consequence of types being "finalized" after each type
                 // addition. This further emphasized the need for a more
                 // deliberate, multi-pass approach.
+                #[cfg(feature = "verif-hooks")]
+                verif::record_name_reuse(self, name, type_id, &ty);
                 type_id.clone()
             } else {
                 let type_id = self.assign();
